@@ -186,6 +186,28 @@ func (w *Rewriter) Rewrite(name string, b []byte, depth int) []byte {
 					}
 				}
 				out = append(out, lenRec(r, rec, sub))
+			case sh.Cat == "map":
+				// a map entry may omit a zero key / zero value (absent means zero), list value before
+				// key, and carry unknown fields
+				entry, ok := Split(payload)
+				if ok && r.Intn(2) == 0 {
+					var kept []Record
+					for _, e := range entry {
+						if (e.Num == 1 || e.Num == 2) && isZeroValue(e) && r.Intn(2) == 0 {
+							continue
+						}
+						kept = append(kept, e)
+					}
+					if len(kept) == 2 && r.Intn(3) == 0 {
+						kept[0], kept[1] = kept[1], kept[0]
+					}
+					if r.Intn(6) == 0 {
+						u, _ := Split(unknownRecord(r, map[int32]bool{1: true, 2: true}, 1))
+						kept = append(kept, u...)
+					}
+					payload = Join(kept)
+				}
+				out = append(out, lenRec(r, rec, payload))
 			case sh.Repeated && (sh.Cat == "scalar" || sh.Cat == "enum") && fd.Kind != "string" && fd.Kind != "bytes":
 				// non-minimal varints inside the packed payload
 				if scalarIsVarint(fd.Kind) && r.Intn(3) == 0 {
@@ -360,4 +382,24 @@ func scalarIsVarint(kind string) bool {
 		return false
 	}
 	return true
+}
+
+// isZeroValue: the record's value is the zero of its wire type (0 varint, all-zero fixed, empty bytes)
+func isZeroValue(e Record) bool {
+	switch e.Typ {
+	case protowire.VarintType:
+		v, n := protowire.ConsumeVarint(e.Val)
+		return n > 0 && v == 0
+	case protowire.Fixed32Type, protowire.Fixed64Type:
+		for _, b := range e.Val {
+			if b != 0 {
+				return false
+			}
+		}
+		return true
+	case protowire.BytesType:
+		p, n := protowire.ConsumeBytes(e.Val)
+		return n > 0 && len(p) == 0
+	}
+	return false
 }
